@@ -154,7 +154,7 @@ def check(ctx):
     from pfhedge.instruments import BrownianStock, HestonStock, EuropeanOption, EuropeanBinaryOption, AmericanBinaryOption, LookbackOption
     from pfhedge.nn import Hedger, BlackScholes, WhalleyWilmott
     torch.manual_seed(ctx.seed % (2 ** 31))
-    for _ in range(12 if ctx.tier == "quick" else 150):
+    for _ in range(40 if ctx.tier == "quick" else 300):
         und = g.choice(["brownian", "heston"])
         cost = g.choice([0.0, 1e-3])
         # zero volatility is admissible: the paths are constant, at the money for strike 1 (gamma infinite, band 0 * inf or inf)
